@@ -47,6 +47,7 @@ type c15Cfg struct {
 	Script float64 // <0: real generator
 	Bias   string  // criteriaOmission | preferenceReversal
 	Ranges bool
+	Pascal bool // option keys spelled the way the README names them (Ratio, Min, Max, Ordering, RandomSeed): decoding is case-insensitive
 }
 
 // methodParams builds methodParameters for the criteria ids with weights w.
@@ -160,6 +161,13 @@ func c15Base(cfg c15Cfg, cids []string, omit map[string]bool, withBias bool) M {
 		}
 		if cfg.Order != "" {
 			props["ordering"] = cfg.Order
+		}
+		if cfg.Pascal {
+			pp := M{}
+			for k, v := range props {
+				pp[strings.ToUpper(k[:1])+k[1:]] = v
+			}
+			props = pp
 		}
 		bias := cfg.Bias
 		if bias == "" {
@@ -558,6 +566,19 @@ func c15Run(s *Shard) {
 							sampled = true
 						}
 					}
+					// option keys in the README's spelling (decoding is case-insensitive), every ordering
+					if n == 3 {
+						for _, ord := range orderings {
+							for _, sd := range seeds[:3] {
+								pc := c15Cfg{Method: method, N: n, Vals: vals, W: w, Ratio: 0.34, Min: 1, Max: 2, Order: ord, Seed: sd.seed, Script: sd.script, Pascal: true}
+								c := &Case{Prop: "C15", Kind: "omission", Params: M{"cfg": pc}}
+								s.Evals++
+								s.Begin(c)
+								_, vs := c15CheckCfg(c, pc)
+								s.Report(vs)
+							}
+						}
+					}
 					// the omission listed twice, every ordering, real seeds and a scripted generator
 					if n >= 3 {
 						for _, ord := range orderings {
@@ -608,6 +629,68 @@ func c15Run(s *Shard) {
 				}
 			}
 		})
+	}
+	// many criteria: 14 and 21 (beyond the size where sorts change strategy; ids c1..c21 do not sort numerically), pairwise
+	// distinct weights declared in a scrambled order, and a variant with runs of equal weights
+	for _, n := range []int{14, 21} {
+		for _, method := range allMethods {
+			if method == "choquetIntegral" {
+				continue // 2^n capacities
+			}
+			for wi := 0; wi < 2; wi++ {
+				for pat := 0; pat < 3; pat++ {
+					if !s.Take() {
+						continue
+					}
+					w := make([]float64, n)
+					vals := [][]float64{make([]float64, n), make([]float64, n)}
+					for j := range w {
+						w[j] = float64((j*5)%n + 1)
+						if wi == 1 {
+							w[j] = float64((j*5)%n/3 + 1) // runs of three equal weights
+						}
+						vals[0][j] = float64((j*(pat+2))%n%4 + 1)
+						vals[1][j] = float64((j*(pat+3)+1)%n%4 + 1)
+					}
+					for _, ord := range orderings {
+						for _, ratio := range []float64{0.34, 0.5, 0.75} {
+							for _, sd := range seeds[:3] {
+								cfg := c15Cfg{Method: method, N: n, Vals: vals, W: w, Ratio: ratio, Min: -1, Max: -1, Order: ord, Seed: sd.seed, Script: sd.script}
+								c := &Case{Prop: "C15", Kind: "omission", Params: M{"cfg": cfg}}
+								s.Evals++
+								s.Begin(c)
+								_, vs := c15CheckCfg(c, cfg)
+								s.Report(vs)
+							}
+						}
+					}
+				}
+			}
+		}
+	}
+	// counts at the edge of the floor: float64(n)*ratio just below a whole number
+	for _, e := range floorEdgeCounts() {
+		n := int(e[0])
+		for _, method := range []string{"weightedSum", "majorityHeuristic", "electreIII", "owa"} {
+			if !s.Take() {
+				continue
+			}
+			w := make([]float64, n)
+			vals := [][]float64{make([]float64, n), make([]float64, n)}
+			for j := range w {
+				w[j] = float64((j*5)%n + 1)
+				vals[0][j] = float64((j*3)%n%4 + 1)
+				vals[1][j] = float64((j*7+1)%n%4 + 1)
+			}
+			for _, ord := range []string{"", "strongest", "random"} {
+				cfg := c15Cfg{Method: method, N: n, Vals: vals, W: w, Ratio: e[1], Min: -1, Max: -1, Order: ord, Seed: 7, Script: -1}
+				c := &Case{Prop: "C15", Kind: "omission", Params: M{"cfg": cfg}}
+				s.Evals++
+				s.Begin(c)
+				_, vs := c15CheckCfg(c, cfg)
+				s.Report(vs)
+			}
+		}
 	}
 	// frequency clause
 	maxSeed := int64(4096)
